@@ -43,6 +43,7 @@ for d in sorted(glob.glob(os.path.join(VERIF, "seeded", "S*"))):
                 "violation_lines": len(viol), "first_reports": whats, "wall_s": round(time.time() - t0, 1)}
     print(sid, meta["property"], "rc=%d" % p.returncode, "detected" if p.returncode == 1 else "MISSED", whats[0]["what"][:110] if whats and "what" in whats[0] else p.stderr[-300:])
     sys.stdout.flush()
+    json.dump(res, open(os.path.join(VERIF, "seeded", "RESULTS.json"), "w"), indent=1, ensure_ascii=False)   # after every item
 for f in glob.glob(os.path.join(VERIF, "replays", "*.json")):
     os.remove(f)
 json.dump(res, open(os.path.join(VERIF, "seeded", "RESULTS.json"), "w"), indent=1, ensure_ascii=False)
